@@ -91,8 +91,15 @@ def gen(rng, i, tier):
     tab = {"vi": vis, "io": ios, z: [[cv if const else val() for _ in ios] for _ in vis]}
     # axis presentation variants: the vi axis written with negative values (tables for negative rails) and /
     # or in descending order - the sign of the coordinates is ignored and rows carry their own vi value
-    form = rng.choice(["plain", "plain", "neg_vi", "desc_vi", "neg_desc_vi"])
+    form = rng.choice(["plain", "plain", "neg_vi", "desc_vi", "neg_desc_vi", "shuffled_vi", "neg_shuffled_vi"])
     if len(vis) > 1 or form == "neg_vi":
+        if "shuffled" in form and len(vis) > 2:
+            # rows listed in arbitrary order (a curve appended later): each row carries its own vi value
+            perm = list(range(len(vis)))
+            while perm == sorted(perm) or perm == sorted(perm, reverse=True):
+                rng.shuffle(perm)
+            tab["vi"] = [tab["vi"][k] for k in perm]
+            tab[z] = [tab[z][k] for k in perm]
         if "desc" in form:
             tab["vi"] = tab["vi"][::-1]
             tab[z] = tab[z][::-1]
